@@ -81,6 +81,32 @@ def direct_ranges(rng, out, thorough):
                 else:
                     viol.append(item)
         out.count('range_' + fam)
+    # ---- several discrete parameters with mixed toggles, given in another key order than the parameters
+    for _ in range(n):
+        params = ['n', 'k', 'm'][:rng.choice([2, 3])]
+        succ = {p: (i % 2 == 0) for i, p in enumerate(params)}
+        if rng.random() < 0.5:
+            succ = {p: not v for p, v in succ.items()}
+        keys = list(params)
+        rng.shuffle(keys)
+        arg = {p: succ[p] for p in keys}
+        bounded = rng.random() < 0.5
+        if bounded:
+            prop = P.BoundedDiscrete(params, {p: (-3, 6) for p in params}, cov=[1.0] * len(params), successive=arg)
+        else:
+            prop = P.NormalDiscrete(params, cov=[1.0] * len(params), successive=arg)
+        prop.bit_generator = numpy.random.PCG64(rng.randrange(1, 10 ** 6))
+        x = {p: rng.randint(-2, 5) for p in params}
+        for _ in range(60):
+            r = prop.jump(dict(x))
+            out.evaluations += 1
+            bad = [p for p in params if float(r[p]) != int(r[p]) or (bounded and not -3 <= r[p] <= 6) or (not succ[p] and int(r[p]) == x[p])]
+            if bad:
+                viol.append(dict(what='%s(successive=%s) proposed %s from %s: parameter(s) %s outside their domain (non-successive parameters '
+                                      'must move)' % (prop.name, arg, {p: int(r[p]) for p in params}, x, bad),
+                                 replay=dict(family=prop.name, params=params, successive=arg, fromx=x)))
+                break
+        out.count('range_multi_discrete')
     # ---- refusal outside the bounds
     for _ in range(6):
         lo, hi = -3.0, 5.0
